@@ -275,7 +275,7 @@ End Flatten.
 
 (** ** positions: pest's Pair::line_col through LineIndex: a line ends at '\n' only; columns count
     scalar values.  Both 1-based in pest; this is the 0-based (line, column) of offset [off]. *)
-Fixpoint line_col_from (inp : str) (off : nat) (line col : N) : N * N :=
+Fixpoint line_col_from (inp : str) (off : nat) (line col : N) {struct off} : N * N :=
   match off with
   | O => (line, col)
   | S off' => match inp with
